@@ -217,15 +217,15 @@ theorem celtBands_no_fault (cfg : CeltCfg) (len : Nat) (h : CeltHdr) (o : Opus.C
 
 open Opus.CeltSyms Opus.CeltBands Opus.CeltBandsProofs Opus.CeltSymsProofs in
 /-- Totality of the whole CELT frame model `celtFrame` (header, C17's `computeAllocation` driven by the range decoder,
-    band data, final range): from any decoder state satisfying `J` and every legal configuration it returns a frame or
-    `INTERNAL_ERROR` (the `ec_tell(dec) > 8*len` exit of celt_decoder.c:1357), never `.oob` / `.abort` — no laplace.c
-    assertion; the header puts the allocation input inside C17's domain (`allocInp_dom`), so the allocation returns
+    band data, final range): from any decoder state satisfying `J` and every legal configuration it returns a frame —
+    never an error (CELT has no error return on packet data any more: the `ec_tell(dec) > 8*len` test of
+    celt_decoder.c:1357 only sets `st->error`), never `.oob` / `.abort` — no laplace.c assertion; the header puts the allocation input inside C17's domain (`allocInp_dom`), so the allocation returns
     (C17's `alloc_main`) after at most 23 coder calls whose `ec_dec_uint` has `2 ≤ ft ≤ 22` (`allocOps_of_dom`, proved
     from C17's model), so the oracle-driving loop `allocDrive` ends; and the band data never faults
     (`celtBands_no_fault`). -/
 theorem celtFrame_total (cfg : CeltCfg) (len : Nat) (c : Dec) (hj : J c) (hl : cfg.LM < 4)
     (hC : cfg.C = 1 ∨ cfg.C = 2) (hse : cfg.start < cfg.end_) (he : cfg.end_ ≤ 21) (hlen : len ≤ 262144) :
-    (∃ f, celtFrame cfg len c = .ok f) ∨ celtFrame cfg len c = .err .internalError :=
+    ∃ f, celtFrame cfg len c = .ok f :=
   Opus.CeltBandsProofs.celtFrame_total cfg len c hj hl hC hse he hlen
     (fun h hh => allocOps_of_dom _ (allocInp_dom cfg len c h hh hl hC hse he hlen))
 
@@ -235,13 +235,10 @@ open Opus.CeltSyms Opus.CeltBands Opus.CeltBandsProofs Opus.CeltSymsProofs in
     part. -/
 theorem celtFrame_total_arbitrary_bytes (bandwidth nCh spf48 : Nat) (hC : nCh = 1 ∨ nCh = 2) (frame : Bytes)
     (hlen : frame.length ≤ 1275) :
-    ((∃ f, celtFrame { start := 0, end_ := endBandOf bandwidth, C := nCh, LM := lmOf spf48 } frame.length
-            (decInit frame frame.length) = .ok f) ∨
-      celtFrame { start := 0, end_ := endBandOf bandwidth, C := nCh, LM := lmOf spf48 } frame.length
-            (decInit frame frame.length) = .err .internalError) ∧
+    (∃ f, celtFrame { start := 0, end_ := endBandOf bandwidth, C := nCh, LM := lmOf spf48 } frame.length
+            (decInit frame frame.length) = .ok f) ∧
     (∀ mode ms10 fec st o len, len ≤ 1275 → 17 < endBandOf bandwidth → decodeOpusFrame mode bandwidth nCh ms10 fec st frame = .ok o →
-      (∃ f, celtFrame { start := 17, end_ := endBandOf bandwidth, C := nCh, LM := lmOf spf48 } len o.dec = .ok f) ∨
-       celtFrame { start := 17, end_ := endBandOf bandwidth, C := nCh, LM := lmOf spf48 } len o.dec = .err .internalError) := by
+      ∃ f, celtFrame { start := 17, end_ := endBandOf bandwidth, C := nCh, LM := lmOf spf48 } len o.dec = .ok f) := by
   have hlm : lmOf spf48 < 4 := by unfold lmOf; split <;> (try split) <;> (try split) <;> omega
   have he : endBandOf bandwidth ≤ 21 := by unfold endBandOf; split <;> (try split) <;> (try split) <;> omega
   have hs0 : 0 < endBandOf bandwidth := by unfold endBandOf; split <;> (try split) <;> (try split) <;> omega
